@@ -44,7 +44,9 @@ class Printer:
             if required:
                 self._write(" ")
             return
-        choices = [" ", " ", "  ", "\t", "\n", "\r\n", "\n  ", " /* c */ ", "/* é 🙂 */", " // note\n", "//x\n\t", " /* a */ /* b */ "]
+        choices = [" ", " ", "  ", "\t", "\n", "\r\n", "\n  ", " /* c */ ", "/* é 🙂 */", " // note\n", "//x\n\t", " /* a */ /* b */ ",
+                   # a lone carriage return is whitespace (and ends a line comment) but does not start a new line
+                   "\r", " \r ", "\n\r", "//y\r", "\r\r\n"]
         if not required and r.random() < 0.5:
             return
         s = r.choice(choices)
